@@ -45,7 +45,7 @@ KIND = {"GA": "K_GA", "ES": "K_ES", "NSGAII": "K_NSGAII", "NSGAIII": "K_NSGAIII"
         "EpsNSGAII": "K_EpsNSGAII", "GDE3": "K_GDE3", "SPEA2": "K_SPEA2", "MOEAD": "K_MOEAD", "IBEA": "K_IBEA",
         "PAES": "K_PAES", "PESA2": "K_PESA2", "OMOPSO": "K_OMOPSO", "SMPSO": "K_SMPSO", "CMAES": "K_CMAES"}
 
-STEP_TIMEOUT_S = 20
+STEP_TIMEOUT_S = 120   # wall clock per step; a step takes milliseconds, the margin is for heavily loaded machines
 REJECTED_ERRORS = ("objective with empty range",)   # IBEA on a population whose objective range is degenerate (input rejected by the code)
 
 
